@@ -11,6 +11,6 @@ def chefCookbook : List (String × Option String) := [("HRR", some "heat_release
 def chefCookfields : List (String × String) := [("HRR", "HeatRelease"), ("ENT", "Enthalpy"), ("SRi", "IRm"), ("RRi", "R"), ("SDi", "DI")]
 def swallowedWriteSites : List (String × String × String) := []
 def unorderedPoolCalls : List (String × String) := [("amr_kitchen/whip/cli.py", "main")]
-def nonFortranReshapes : List (String × String × String) := [("amr_kitchen/mandoline/utils.py", "expand_array", "reshape")]
+def nonFortranReshapes : List (String × String × String) := []
 
 end Generated
